@@ -228,6 +228,7 @@ type mBlock struct {
 	HeaderOk        bool     `json:"headerOk"`
 	BlockID         uint64   `json:"blockId"`
 	MaxWeight       uint64   `json:"maxWeight"`
+	SuppLenOk       bool     `json:"suppLenOk"`
 }
 type mReq struct {
 	Ledger        mLedger `json:"ledger"`
@@ -351,7 +352,7 @@ func V1SigsOK(cs consensus.State, txn types.Transaction, child uint64) bool {
 	}
 	for _, sig := range txn.Signatures {
 		e, ok := m[sig.ParentID]
-		if !ok || sig.PublicKeyIndex >= uint64(len(e.keys)) || e.need == 0 || e.used[sig.PublicKeyIndex] || sig.Timelock > child {
+		if !ok || sig.PublicKeyIndex >= uint64(len(e.keys)) || e.need == 0 || e.used[sig.PublicKeyIndex] || sig.Timelock > child || !coveredInRange(txn, sig.CoveredFields) {
 			return false
 		}
 		e.used[sig.PublicKeyIndex] = true
@@ -381,6 +382,24 @@ func V1SigsOK(cs consensus.State, txn types.Transaction, child uint64) bool {
 		}
 	}
 	return true
+}
+
+// coveredInRange: a signature may only name fields the transaction has.
+func coveredInRange(txn types.Transaction, cf types.CoveredFields) bool {
+	in := func(idx []uint64, n int) bool {
+		for _, i := range idx {
+			if i >= uint64(n) {
+				return false
+			}
+		}
+		return true
+	}
+	if cf.WholeTransaction {
+		return in(cf.Signatures, len(txn.Signatures))
+	}
+	return in(cf.SiacoinInputs, len(txn.SiacoinInputs)) && in(cf.SiacoinOutputs, len(txn.SiacoinOutputs)) && in(cf.FileContracts, len(txn.FileContracts)) &&
+		in(cf.FileContractRevisions, len(txn.FileContractRevisions)) && in(cf.StorageProofs, len(txn.StorageProofs)) && in(cf.SiafundInputs, len(txn.SiafundInputs)) &&
+		in(cf.SiafundOutputs, len(txn.SiafundOutputs)) && in(cf.MinerFees, len(txn.MinerFees)) && in(cf.ArbitraryData, len(txn.ArbitraryData)) && in(cf.Signatures, len(txn.Signatures))
 }
 
 func lastLeafIndex(filesize uint64) uint64 {
@@ -482,7 +501,7 @@ func (a *Abstractor) Abstract(b types.Block, bs consensus.V1BlockSupplement) str
 			L.Fc2 = append(L.Fc2, a.fc2Elem(e))
 		}
 	}
-	mb := mBlock{Txns1: []mTxn1{}, Payouts: [][2]any{}, Expiring: [][2]any{}, MaxWeight: cs.MaxBlockWeight()}
+	mb := mBlock{Txns1: []mTxn1{}, Payouts: [][2]any{}, Expiring: [][2]any{}, MaxWeight: cs.MaxBlockWeight(), SuppLenOk: len(bs.Transactions) == len(b.Transactions)}
 	bid := b.ID()
 	mb.BlockID = a.id(bid)
 	mb.FoundationOutID = a.id(bid.FoundationOutputID())
